@@ -4416,6 +4416,8 @@ fn judge_station_rib_c18(rep: &mut Report, out: &Outcome, sti: usize, hseed: u64
         codecs.insert(cfg.addr, c);
     }
     let mut open: BTreeSet<IpAddr> = BTreeSet::new();
+    let mut open_port: BTreeMap<IpAddr, u16> = BTreeMap::new();
+    let mut lost_down: BTreeSet<IpAddr> = BTreeSet::new();
     let mut folds: BTreeMap<(IpAddr, u8), BTreeMap<RouteKey, RouteVal>> = BTreeMap::new();
     // keys that were announced to the station while no PeerUp of the peer was open
     let mut orphan: BTreeMap<(IpAddr, u8), BTreeSet<RouteKey>> = BTreeMap::new();
@@ -4430,6 +4432,12 @@ fn judge_station_rib_c18(rep: &mut Report, out: &Outcome, sti: usize, hseed: u64
     for (_, m) in &st.msgs {
         match m {
             StMsg::PeerUp { hdr, rport, .. } if hdr.ptype == 0 => {
+                // a PeerUp of another session (other source port) of a peer whose PeerUp is still open:
+                // the PeerDown of the earlier session was never delivered to this station
+                if open.contains(&hdr.addr()) && open_port.get(&hdr.addr()).is_some_and(|p| p != rport) {
+                    lost_down.insert(hdr.addr());
+                }
+                open_port.insert(hdr.addr(), *rport);
                 open.insert(hdr.addr());
                 log(
                     &mut order,
@@ -4567,6 +4575,13 @@ fn judge_station_rib_c18(rep: &mut Report, out: &Outcome, sti: usize, hseed: u64
                 .filter(|(k, v)| got.get(*k) != Some(*v))
                 .map(|(k, _)| k)
                 .collect();
+            // what the sessions of this speaker that have ended had announced
+            let ended_keys: BTreeSet<&RouteKey> = sessions
+                .iter()
+                .filter(|x| x.close.is_some())
+                .flat_map(|x| x.model.keys())
+                .collect();
+            let _ = &lost_down;
             let orph = orphan.get(&(cfg.addr, view));
             let all_orphan = !leftover.is_empty()
                 && leftover
@@ -4574,13 +4589,13 @@ fn judge_station_rib_c18(rep: &mut Report, out: &Outcome, sti: usize, hseed: u64
                     .all(|k| orph.is_some_and(|o| o.contains(*k)));
             let sig = if missing.is_empty() && all_orphan {
                 "C18/bmp-station/routes-of-departed-peer"
-            } else if departed && missing.is_empty() && open.contains(&cfg.addr) {
+            } else if missing.is_empty() && !leftover.is_empty() && leftover.iter().all(|k| ended_keys.contains(*k)) {
                 "C18/bmp-station/peer-down-never-delivered"
             } else {
                 "C18/bmp-station/adj-rib-in-differs"
             };
             let what = if sig.ends_with("never-delivered") {
-                "a BMP station was sent the PeerUp and the routes of a session that was ending while the station subscribed, but never its PeerDown: the station keeps a peer and routes the RIB no longer holds"
+                "a session ended while a BMP station was in its snapshot phase: the station is sent routes of that session under a PeerUp (of that session, still in Global, or of the peer's next session) but never the PeerDown that would clear them, so it keeps routes the RIB no longer holds"
             } else if sig.ends_with("departed-peer") {
                 "a BMP station was sent RouteMonitoring of a session that had ended without ever being sent its PeerUp; the PeerDown is then suppressed, so the station keeps routes the RIB no longer holds (last event delivered is not the current state)"
             } else {
